@@ -8,6 +8,7 @@ deviations that the repository's own tests pin are carried as Boolean variants (
   C02-KF3  a SECURED packet (basic-header NH = 2) is forwarded WITHOUT its security envelope (`forwardSecured`)
 -/
 import FlexModel.Wire.Headers
+import Generated.WireFacts
 
 namespace FlexModel.Wire
 open Generated.WireEnums
@@ -181,5 +182,46 @@ GN request `length = len(data)` -/
 def btpWrap (h : BTPHeader) (payload : Bytes) : Except Err Bytes := do
   let hb ← h.encode
   return hb ++ payload
+
+/-- the fields of `BTPDataRequest` that can reach the wire, plus its `length` attribute (the DECLARED length of the
+BTP-Data.request: dataclass default 0, `from_dict` default 0 / whatever the dict carries), which must not -/
+structure BtpRequest where
+  btpType : Nat               -- btp_type (a CommonNH value): BTP_A = 1, BTP_B = 2
+  sourcePort : Nat
+  destinationPort : Nat
+  destinationPortInfo : Nat
+  declaredLength : Nat        -- `length`
+  data : Bytes
+  ht : Nat                    -- gn_packet_transport_type
+  hst : Nat
+  tc : TrafficClass
+  area : Area                 -- gn_area
+  maxHopLimit : Nat           -- gn_max_hop_limit
+  lifetimeMs : Option Nat     -- gn_max_packet_lifetime
+deriving DecidableEq, Repr
+
+/-- the BTP header `btp_data_request` puts in front: BTP-B (destination port, destination port info), BTP-A (destination
+port, source port); any other `btp_type`: `ValueError("Unknown BTP Header Type")` -/
+def BtpRequest.header (q : BtpRequest) : Except Err BTPHeader :=
+  if q.btpType = CommonNH_BTP_B then .ok ⟨q.destinationPort, q.destinationPortInfo⟩
+  else if q.btpType = CommonNH_BTP_A then .ok ⟨q.destinationPort, q.sourcePort⟩
+  else .error .value
+
+/-- `btp.router.Router.btp_data_request`: the GN-DATA.request handed to GeoNetworking.
+`lengthFromData = true` — the code as it is (generated fact `WireFacts.btpGnLengthFromData = btpGnRequestSites`):
+`data = header.encode() + request.data`, `length = len(data)`; the declared length is not read.
+`lengthFromData = false` — the variant in which the length is computed from the declaration
+(`len(header) + request.length`): kept for the witness `Props.C02.btp_declared_length_witness`. -/
+def btpGnRequest (lengthFromData : Bool) (q : BtpRequest) : Except Err Request := do
+  let h ← q.header
+  let data ← btpWrap h q.data
+  return { nh := q.btpType, ht := q.ht, hst := q.hst, tc := q.tc,
+           length := if lengthFromData then data.length else 4 + q.declaredLength,
+           data, area := q.area, maxHopLimit := q.maxHopLimit, lifetimeMs := q.lifetimeMs }
+
+/-- the regenerated structural fact about `btp_data_request` (harness/gen_wire.py, ast pass over btp/router.py): there is at
+least one `GNDataRequest(...)` constructor call and EVERY one passes `length=len(E)` with `E` the expression passed as `data=` -/
+def codeBtpLengthFromData : Bool :=
+  decide (0 < Generated.WireFacts.btpGnRequestSites ∧ Generated.WireFacts.btpGnLengthFromData = Generated.WireFacts.btpGnRequestSites)
 
 end FlexModel.Wire
